@@ -2,6 +2,7 @@
 #ifndef VERIF_ALGO_LABELED_HPP
 #define VERIF_ALGO_LABELED_HPP
 #include "algo.hpp"
+#include <sstream>
 
 namespace verif {
 
@@ -279,6 +280,13 @@ template <class L> class LabeledFamily : public IAlgoFamily {
             std::sort(b.begin(), b.end());
             if (a != b)
                 return r.fail("edges() yields (as a bag) " + json(a).dump() + ", expected " + json(b).dump());
+        }
+        // (beyond the listed properties) the text written by operator<<
+        if (sameShape && c.contains("text")) {
+            std::ostringstream os;
+            os << g;
+            if (os.str() != c.at("text").get<std::string>())
+                r.diagnostics.push_back("operator<< wrote " + json(os.str()).dump() + ", the specification " + c.at("text").dump());
         }
         // operations defined by enumerating edges are defined on every shape
         try {
